@@ -213,6 +213,29 @@ fn gen_arith(r: &mut Rng, depth: usize, allow_ite: bool) -> E {
         Flt(*r.pick(&[0.5, 1.5, 2.0, 3.0, 0.25]))
     }
 }
+/// integer polynomials (only + - * and integer powers 2..4, integer constants): integer and float
+/// arithmetic agree exactly on them, so the derivative may be evaluated at INTEGER points
+fn gen_poly(r: &mut Rng, depth: usize) -> E {
+    let roll = r.below(10);
+    if depth < 3 && roll < 5 {
+        let n = *r.pick(&["+", "-", "*", "^"]);
+        if n == "^" {
+            b("^", gen_poly(r, depth + 1), Int(2 + r.below(3) as i32))
+        } else {
+            b(n, gen_poly(r, depth + 1), gen_poly(r, depth + 1))
+        }
+    } else if roll < 9 {
+        Var(r.below(VARS.len()))
+    } else {
+        Int(1 + r.below(3) as i32)
+    }
+}
+fn gen_poly_ite(r: &mut Rng) -> E {
+    let n = *r.pick(&[">", "<", ">=", "<="]);
+    let c = Cmp(n, Rc::new(Var(r.below(VARS.len()))), Rc::new(b("+", Var(r.below(VARS.len())), Int(r.below(3) as i32))));
+    Ite(Rc::new(c), Rc::new(gen_poly(r, 1)), Rc::new(gen_poly(r, 1)))
+}
+
 fn gen_ite(r: &mut Rng, depth: usize) -> E {
     let n = *r.pick(&[">", "<", ">=", "<=", ">", "<", "!=", "=="]);
     // the property quantifies over comparison conditions *on the variables*: at least one side depends
@@ -246,11 +269,19 @@ pub fn gen(r: &mut Rng, _tier: &str, _i: usize, stats: &mut BTreeMap<String, u64
             gen_arith(r, 0, false)
         }
     };
+    // one case in six: an integer polynomial (possibly piecewise), judged at integer points
+    let int_case = r.chance(1, 6);
+    let e = if int_case {
+        *stats.entry("int_polynomial".into()).or_insert(0) += 1;
+        if r.chance(1, 2) { gen_poly_ite(r) } else { gen_poly(r, 0) }
+    } else {
+        e
+    };
     let order = *r.pick(&[1usize, 1, 1, 2]);
     let idxs: Vec<String> = (0..order).map(|_| r.below(3).to_string()).collect();
     // half of the cases are handed to the implementation with fewer parentheses (4th field)
     let sloppy = if r.chance(1, 2) { hex(&render_sloppy(&e)) } else { "-".to_string() };
-    format!("valdiff\t{}\t{}\t{}\t{}", hex(&render(&e)), idxs.join(","), r.next() % 1000000, sloppy)
+    format!("valdiff\t{}\t{}\t{}\t{}\t{}", hex(&render(&e)), idxs.join(","), r.next() % 1000000, sloppy, if int_case { "int" } else { "float" })
 }
 
 // the reference tree is rebuilt from the rendered text by a small parser (full parenthesisation)
@@ -358,6 +389,7 @@ pub fn run(f: &[&str]) -> String {
     let idxs: Vec<usize> = f[1].split(',').map(|x| x.parse().unwrap()).collect();
     let seed: u64 = f[2].parse().unwrap_or(1);
     let f_sloppy: String = f.get(3).map(|x| x.to_string()).unwrap_or_else(|| "-".to_string());
+    let int_points = f.get(4).map(|x| *x == "int").unwrap_or(false);
     crate::catch(move || {
         let chars: Vec<char> = text.chars().collect();
         let mut pos = 0;
@@ -405,11 +437,21 @@ pub fn run(f: &[&str]) -> String {
         let mut rng = Rng::new(seed);
         let mut judged = 0;
         for _ in 0..20 {
-            let p: Vec<f64> = (0..3).map(|_| 0.3 + (rng.below(2400) as f64) / 1000.0).collect();
+            let p: Vec<f64> = if int_points {
+                (0..3).map(|_| (1 + rng.below(4)) as f64).collect()
+            } else {
+                (0..3).map(|_| 0.3 + (rng.below(2400) as f64) / 1000.0).collect()
+            };
             if !tame(&reference0, &p) || !tame(&reference, &p) {
                 continue;
             }
-            let vals: Vec<Val<i32, f64>> = names.iter().map(|n| Val::Float(p[VARS.iter().position(|v| v == n).unwrap()])).collect();
+            let vals: Vec<Val<i32, f64>> = names
+                .iter()
+                .map(|n| {
+                    let x = p[VARS.iter().position(|v| v == n).unwrap()];
+                    if int_points { Val::Int(x as i32) } else { Val::Float(x) }
+                })
+                .collect();
             let want = eval(&reference, &p);
             for (form, got) in [("flat", d.eval(&vals)), ("deep", dd.eval(&vals))] {
                 let got = match got {
